@@ -1,4 +1,5 @@
 (* C20 — proofs about Model/Tui.v *)
+From Coq Require Import Sorting.Sorted.
 From RipV Require Import Base.Prelude Model.Tui.
 
 (* ---------- frame window bound ---------- *)
@@ -118,6 +119,9 @@ Proof.
   replace (N.to_nat (fseq f - base s)) with i by lia.
   rewrite Hn, N.eqb_refl. reflexivity.
 Qed.
+
+Lemma nlen_cons_tui {A} (x : A) l : nlen (x :: l) = 1 + nlen l.
+Proof. unfold nlen. cbn [length]. lia. Qed.
 
 (* ---------- bounded text ---------- *)
 Lemma blen_app a b : blen (a ++ b) = blen a + blen b.
@@ -278,6 +282,211 @@ Proof.
   unfold run_tui.
   destruct (run_inv evs _ (tui_new_inv m mo af)) as [[[_ Hf] [Ho [Ht Hk]]] [B [C D]]].
   rewrite B in Ho. rewrite C in Ht, Hk. rewrite D in Hf. cbn in *. auto.
+Qed.
+
+(* ---------- the id-keyed maps: one entry per distinct id seen, bounded previews per entry ---------- *)
+Definition keys {V} (m : list (N * V)) : list N := map fst m.
+
+Definition tool_ids_of (k : ekind) : list N := match k with KToolStarted id => [id] | _ => [] end.
+Definition task_ids_of (k : ekind) : list N :=
+  match k with KTaskSpawned id => [id] | KTaskStatus id _ => [id] | _ => [] end.
+Definition job_ids_of (k : ekind) : list N :=
+  match k with KJobSpawned id => [id] | KJobEnded id => [id] | _ => [] end.
+(* the ids for which a frame that creates an entry was seen *)
+Definition tool_ids (evs : list ev) : list N := flat_map (fun e => tool_ids_of (ekd e)) evs.
+Definition task_ids (evs : list ev) : list N := flat_map (fun e => task_ids_of (ekd e)) evs.
+Definition job_ids (evs : list ev) : list N := flat_map (fun e => job_ids_of (ekd e)) evs.
+Definition distinct (l : list N) : N := nlen (nodup N.eq_dec l).
+
+Lemma map_put_keys {V} k (v : V) m :
+  StronglySorted N.lt (keys m) ->
+  StronglySorted N.lt (keys (map_put k v m))
+  /\ (forall x, In x (keys (map_put k v m)) <-> x = k \/ In x (keys m)).
+Proof.
+  unfold keys. induction m as [|[k' v'] r IH]; cbn [map_put map fst]; intros Hs.
+  - split; [repeat constructor|]. intros x; cbn; intuition.
+  - apply StronglySorted_inv in Hs. destruct Hs as [Hr Hall]. specialize (IH Hr). destruct IH as [IHs IHi].
+    destruct (k <? k') eqn:E1; cbn [map fst].
+    + split.
+      * constructor; [constructor; assumption|]. constructor; [lia|].
+        eapply Forall_impl; [|exact Hall]. cbn. intros a Ha. lia.
+      * intros x; cbn; intuition.
+    + destruct (k =? k') eqn:E2; cbn [map fst].
+      * apply N.eqb_eq in E2. subst k'. split; [constructor; assumption|]. intros x; cbn; intuition.
+      * split.
+        -- constructor; [exact IHs|]. apply Forall_forall. intros x Hx. apply IHi in Hx.
+           destruct Hx as [->|Hx]; [lia|]. rewrite Forall_forall in Hall. apply Hall, Hx.
+        -- intros x; cbn. rewrite IHi. intuition.
+Qed.
+
+Lemma map_get_in_keys {V} k (v : V) m : map_get k m = Some v -> In k (keys m).
+Proof.
+  unfold keys. induction m as [|[k' v'] r IH]; cbn [map_get map fst]; [discriminate|].
+  destruct (k =? k') eqn:E; [apply N.eqb_eq in E; subst; intros _; left; reflexivity | intros H; right; auto].
+Qed.
+
+Lemma ssorted_nodup l : StronglySorted N.lt l -> NoDup l.
+Proof.
+  induction 1 as [|x r Hs IH Hall]; constructor; [|exact IH].
+  intros Hin. rewrite Forall_forall in Hall. specialize (Hall _ Hin). lia.
+Qed.
+
+(* a put either replaces the entry of a key that is already there or adds the key *)
+Lemma put_existing_keys {V} k (v w : V) m x :
+  StronglySorted N.lt (keys m) -> map_get k m = Some w ->
+  In x (keys (map_put k v m)) -> In x (keys m).
+Proof.
+  intros Hs Hg Hx. apply (proj2 (map_put_keys k v m Hs)) in Hx.
+  destruct Hx as [->|Hx]; [eapply map_get_in_keys, Hg | exact Hx].
+Qed.
+
+Definition KInv {V} (m : list (N * V)) (ids : list N) : Prop :=
+  StronglySorted N.lt (keys m) /\ incl (keys m) ids.
+
+Lemma KInv_put_new {V} k (v : V) m ids : KInv m ids -> KInv (map_put k v m) (ids ++ [k]).
+Proof.
+  intros [Hs Hi]. destruct (map_put_keys k v m Hs) as [Hs' Hk]. split; [exact Hs'|].
+  intros x Hx. apply Hk in Hx. apply in_or_app. destruct Hx as [->|Hx]; [right; left; reflexivity | left; apply Hi, Hx].
+Qed.
+Lemma KInv_put_existing {V} k (v w : V) m ids extra :
+  KInv m ids -> map_get k m = Some w -> KInv (map_put k v m) (ids ++ extra).
+Proof.
+  intros [Hs Hi] Hg. split; [apply map_put_keys, Hs|].
+  intros x Hx. apply in_or_app. left. apply Hi. eapply put_existing_keys; eauto.
+Qed.
+Lemma KInv_weaken {V} (m : list (N * V)) ids extra : KInv m ids -> KInv m (ids ++ extra).
+Proof. intros [Hs Hi]. split; [exact Hs|]. intros x Hx. apply in_or_app. left. apply Hi, Hx. Qed.
+
+Lemma upd_tools_keys s k ids :
+  KInv (st_tools s) ids -> KInv (upd_tools s k) (ids ++ tool_ids_of k).
+Proof.
+  intros H. unfold upd_tools.
+  destruct k; cbn [tool_ids_of]; try (apply KInv_weaken; exact H);
+    try (destruct (map_get id (st_tools s)) as [t|] eqn:Eg; [eapply KInv_put_existing; eauto | apply KInv_weaken; exact H]).
+  apply KInv_put_new, H.
+Qed.
+
+Lemma upd_tasks_keys s k ids :
+  KInv (st_tasks s) ids -> KInv (upd_tasks s k) (ids ++ task_ids_of k).
+Proof.
+  intros H. unfold upd_tasks.
+  destruct k; cbn [task_ids_of]; try (apply KInv_weaken; exact H).
+  - apply KInv_put_new, H.
+  - destruct (map_get id (st_tasks s)) as [t|] eqn:Eg; apply KInv_put_new, H.
+  - destruct (map_get id (st_tasks s)) as [t|] eqn:Eg; [|apply KInv_weaken; exact H].
+    destruct (stream =? 0); [|destruct (stream =? 1)]; eapply KInv_put_existing; eauto.
+Qed.
+
+Lemma upd_jobs_keys s k ids :
+  KInv (st_jobs s) ids -> KInv (upd_jobs s k) (ids ++ job_ids_of k).
+Proof.
+  intros H. unfold upd_jobs.
+  destruct k; cbn [job_ids_of]; try (apply KInv_weaken; exact H); apply KInv_put_new, H.
+Qed.
+
+Definition MapsInv (s : tui) (seen : list ev) : Prop :=
+  KInv (st_tools s) (tool_ids seen) /\ KInv (st_tasks s) (task_ids seen) /\ KInv (st_jobs s) (job_ids seen).
+
+Lemma update_maps s e seen : MapsInv s seen -> MapsInv (update s e) (seen ++ [e]).
+Proof.
+  intros [Ht [Hk Hj]]. unfold MapsInv, tool_ids, task_ids, job_ids.
+  rewrite !flat_map_app. cbn [flat_map]. rewrite !app_nil_r.
+  unfold update; cbn [st_tools st_tasks st_jobs].
+  split; [apply upd_tools_keys, Ht|]. split; [apply upd_tasks_keys, Hk | apply upd_jobs_keys, Hj].
+Qed.
+
+Lemma run_maps evs s seen : MapsInv s seen -> MapsInv (fold_left update evs s) (seen ++ evs).
+Proof.
+  revert s seen; induction evs as [|e evs IH]; cbn [fold_left]; intros s seen H; [rewrite app_nil_r; exact H|].
+  replace (seen ++ e :: evs) with ((seen ++ [e]) ++ evs) by (rewrite <- app_assoc; reflexivity).
+  apply IH, update_maps, H.
+Qed.
+
+Lemma KInv_count {V} (m : list (N * V)) ids : KInv m ids -> NoDup (keys m) /\ nlen m <= distinct ids.
+Proof.
+  intros [Hs Hi]. pose proof (ssorted_nodup _ Hs) as Hn. split; [exact Hn|].
+  unfold distinct, nlen.
+  assert (length (keys m) <= length (nodup N.eq_dec ids))%nat.
+  { apply NoDup_incl_length; [exact Hn|]. intros x Hx. apply nodup_In, Hi, Hx. }
+  unfold keys in H. rewrite map_length in H. lia.
+Qed.
+
+(* bytes held by the previews of the maps *)
+Definition tool_bytes (t : tool) : N := blen (t_out t) + blen (t_err t).
+Definition task_bytes (t : task) : N := blen (k_out t) + blen (k_err t) + blen (k_pty t).
+Definition tools_bytes (m : list (N * tool)) : N := sumN (map (fun kt => tool_bytes (snd kt)) m).
+Definition tasks_bytes (m : list (N * task)) : N := sumN (map (fun kt => task_bytes (snd kt)) m).
+
+Lemma tools_bytes_le mp m : all_tools_le mp m -> tools_bytes m <= 2 * mp * nlen m.
+Proof.
+  unfold all_tools_le, tools_bytes. induction 1 as [|kt r [H1 H2] Hr IH]; cbn [map sumN]; [unfold nlen; cbn; lia|].
+  rewrite nlen_cons_tui. unfold tool_bytes in *. rewrite N.mul_add_distr_l.
+  set (p := 2 * mp * nlen r) in *. clearbody p. lia.
+Qed.
+Lemma tasks_bytes_le mp m : all_tasks_le mp m -> tasks_bytes m <= 3 * mp * nlen m.
+Proof.
+  unfold all_tasks_le, tasks_bytes. induction 1 as [|kt r [H1 [H2 H3]] Hr IH]; cbn [map sumN]; [unfold nlen; cbn; lia|].
+  rewrite nlen_cons_tui. unfold task_bytes in *. rewrite N.mul_add_distr_l.
+  set (p := 3 * mp * nlen r) in *. clearbody p. lia.
+Qed.
+
+(* everything the state holds that grows with the stream, in bytes of text *)
+Definition held_bytes (s : tui) : N := blen (st_output s) + tools_bytes (st_tools s) + tasks_bytes (st_tasks s).
+
+(* The tool / task / job maps are unbounded by design (one entry per id); the bound that does hold: at most one
+   entry per DISTINCT id for which a creating frame was seen, every entry's previews within max_preview, hence the
+   text held is bounded by the output cap plus 8192 bytes per preview slot of the distinct ids. *)
+Theorem tui_maps_bounded m mo af evs :
+  let s := run_tui m mo af evs in
+  (nlen (st_tools s) <= distinct (tool_ids evs) /\ NoDup (keys (st_tools s)))
+  /\ (nlen (st_tasks s) <= distinct (task_ids evs) /\ NoDup (keys (st_tasks s)))
+  /\ (nlen (st_jobs s) <= distinct (job_ids evs) /\ NoDup (keys (st_jobs s)))
+  /\ held_bytes s <= N.max mo 1 + 8192 * (2 * distinct (tool_ids evs) + 3 * distinct (task_ids evs)).
+Proof.
+  cbv zeta. unfold run_tui.
+  assert (H0 : MapsInv (tui_new m mo af) []) by (unfold MapsInv, KInv, tui_new; cbn; repeat split; try constructor; intros x []).
+  pose proof (run_maps evs _ _ H0) as [Ht [Hk Hj]]. cbn [app] in *.
+  destruct (KInv_count _ _ Ht) as [Nt Ct]. destruct (KInv_count _ _ Hk) as [Nk Ck]. destruct (KInv_count _ _ Hj) as [Nj Cj].
+  pose proof (tui_bounds m mo af evs) as Hb. cbv zeta in Hb. unfold run_tui in Hb.
+  destruct Hb as [_ [Ho [Hto Hta]]].
+  repeat split; try assumption.
+  unfold held_bytes. pose proof (tools_bytes_le _ _ Hto) as B1. pose proof (tasks_bytes_le _ _ Hta) as B2.
+  set (nt := nlen (st_tools _)) in *. set (nk := nlen (st_tasks _)) in *.
+  set (dt := distinct (tool_ids evs)) in *. set (dk := distinct (task_ids evs)) in *.
+  assert (2 * 8192 * nt <= 2 * 8192 * dt) by (apply N.mul_le_mono_l; exact Ct).
+  assert (3 * 8192 * nk <= 3 * 8192 * dk) by (apply N.mul_le_mono_l; exact Ck).
+  lia.
+Qed.
+
+(* the count bound is tight and the maps really are unbounded in the number of ids *)
+Definition started (i : nat) : ev := {| eseq := 0; ets := 0; ekd := KToolStarted (N.of_nat i); eident := 0 |}.
+Definition fresh_tool : tool := {| t_out := []; t_err := []; t_status := 0 |}.
+Lemma st_tools_started s i : st_tools (update s (started i)) = map_put (N.of_nat i) fresh_tool (st_tools s).
+Proof. reflexivity. Qed.
+Lemma map_put_above_len k (m : list (N * tool)) :
+  (forall x, In x (keys m) -> x < k) -> length (map_put k fresh_tool m) = S (length m).
+Proof.
+  induction m as [|[k' v'] r IHm]; intros Hm; cbn [map_put length]; [reflexivity|].
+  assert (k' < k) by (apply Hm; left; reflexivity).
+  destruct (k <? k') eqn:E1; [lia|]. destruct (k =? k') eqn:E2; [lia|].
+  cbn [length]. rewrite IHm; [reflexivity|]. intros x Hx. apply Hm. right. exact Hx.
+Qed.
+Lemma starts_grow n : forall k (s : tui),
+  (forall x, In x (keys (st_tools s)) -> x < N.of_nat k) -> StronglySorted N.lt (keys (st_tools s)) ->
+  length (st_tools (fold_left update (map started (seq k n)) s)) = (length (st_tools s) + n)%nat.
+Proof.
+  induction n as [|n IH]; intros k s Hlt Hs; cbn [seq map fold_left]; [lia|].
+  rewrite (IH (S k)).
+  - rewrite st_tools_started, map_put_above_len by exact Hlt. lia.
+  - intros x Hx. rewrite st_tools_started in Hx.
+    apply (proj2 (map_put_keys _ _ _ Hs)) in Hx. destruct Hx as [->|Hx]; [lia|]. specialize (Hlt _ Hx). lia.
+  - rewrite st_tools_started. apply map_put_keys, Hs.
+Qed.
+Lemma tui_maps_grow_with_ids :
+  forall n : nat, exists evs, length (st_tools (run_tui 1 1 true evs)) = n.
+Proof.
+  intros n. exists (map started (seq 0 n)). unfold run_tui.
+  rewrite starts_grow; cbn; try constructor. intros x [].
 Qed.
 
 (* selected_event never shows a frame other than the selected seq *)
